@@ -26,7 +26,7 @@ ASSUMPTIONS = ['floats as reals (the "to rounding" clause of the property is out
 OPS = ['insert_new', 'insert_existing', 'update_new', 'update_existing', 'remove', 'none']
 MUST_EVALUATE = {'quick': ['inv:max>=weights', 'inv:total=sum', 'inv:positions', 'accept-threshold', 'accept-prob-in-[0,1]',
                            'zero-weight-never-selected', 'total_weight()=sum', 'proposal-uniform-over-items']}
-OPTS = {'quick': {'max_validate': 4, 'validate_every': 5}, 'thorough': {'max_validate': 4, 'validate_every': 50}}
+OPTS = {'quick': {'max_validate': 4, 'validate_every': 5}, 'thorough': {'max_validate': 4, 'validate_every': 50, 'cfg_timeout': 1500}}
 
 
 def functions():
@@ -48,12 +48,14 @@ def configs(tier):
                 for cnt in (-1, 0, 1, 2):
                     if tier == 'quick' and k == 3 and cnt in (-1, 2) and op not in ('remove', 'insert_existing'):
                         continue
+                    if k == 4 and cnt in (-1, 2) and op not in ('remove',):
+                        continue
                     ops2 = [None]
                     if tier == 'thorough' and k <= 2:
                         ops2 = [None, 'insert_new', 'remove0', 'update0']
                     for op2 in ops2:
                         out.append(dict(entry='_ListDict_', k=k, op=op, target=tgt, count=cnt, op2=op2,
-                                        R=2 if tier == 'quick' else 3, tags=[op, 'k%d' % k]))
+                                        R=2 if (tier == 'quick' or k == 4) else 3, tags=[op, 'k%d' % k]))
     return out
 
 
